@@ -357,50 +357,9 @@ End Linear.
 
 (* ------------------------------------------------------------------ _timer under a set stopper (F1) *)
 
-Lemma timer_tail_spin : forall c fuel,
-  t_interval c = None -> t_idle c <> None -> timer_tail false c false fuel TIdleOnly = None.
-Proof.
-  intros c fuel Hi Hd; induction fuel as [| f IH]; cbn; [reflexivity |]. rewrite IH; reflexivity.
-Qed.
-
-Lemma timer_tail_refuted :
-  exists c p, forall fuel, timer_tail false c false fuel p = None.
-Proof.
-  exists {| t_interval := None; t_idle := Some 1000; t_sharp := false |}, (TAfterRun true).
-  intros [| fuel]; cbn; [reflexivity |]. rewrite timer_tail_spin; cbn; congruence.
-Qed.
-
-(* TIdleOnly is entered only by idle-only timers (tstep: interval = None, idle <> None); the partial statement is therefore
-   about the points the code can be at for the given configuration *)
-Definition reachable_point (c : tcfg) (p : tpoint) : bool :=
-  match p with
-  | TIdleOnly => match t_interval c, t_idle c with None, Some _ => true | _, _ => false end
-  | TIdleWait => match t_idle c with Some _ => true | None => false end
-  | _ => true
-  end.
-
-Lemma timer_tail_partial : forall c ra p fuel,
-  reachable_point c p = true ->
-  (t_interval c <> None \/ t_idle c = None \/ ra = true) -> (4 <= fuel)%nat ->
-  exists n, timer_tail false c ra fuel p = Some n /\ (n <= 1)%nat.
-Proof.
-  intros c ra p fuel Hr H Hf.
-  do 4 (destruct fuel as [| fuel]; [lia |]).
-  destruct p as [| | d | |]; cbn.
-  - exists 0%nat; split; [reflexivity | lia].
-  - exists 0%nat; split; [reflexivity | lia].
-  - destruct d; cbn.
-    + destruct (t_interval c) as [i |] eqn:Ei; cbn; [exists 1%nat; split; [reflexivity | lia] |].
-      destruct (t_idle c) as [d |] eqn:Ed; cbn; [| exists 0%nat; split; [reflexivity | lia]].
-      destruct H as [H | [H | ->]]; [congruence | congruence |]. cbn. exists 0%nat; split; [reflexivity | lia].
-    + exists 1%nat; split; [reflexivity | lia].
-  - cbn in Hr. destruct (t_interval c) eqn:Ei; [discriminate |]. destruct (t_idle c) eqn:Ed; [| discriminate].
-    destruct H as [H | [H | ->]]; [congruence | congruence |]. cbn. exists 0%nat; split; [reflexivity | lia].
-  - exists 0%nat; split; [reflexivity | lia].
-Qed.
-
-(* with the proposed one-line repair (`and not stopper.is_set()` in the idle-only loop) the coroutine always leaves *)
-Lemma timer_tail_guarded : forall c ra p fuel, (4 <= fuel)%nat ->
+(* The faithful model is `timer_tail true` (the idle-only loop tests the stopper since ba077d7): once the stopper is set the
+   coroutine leaves after at most one more (non-suspending) sleep() call, from every program point, for EVERY timer. *)
+Lemma timer_tail_terminates : forall c ra p fuel, (4 <= fuel)%nat ->
   exists n, timer_tail true c ra fuel p = Some n /\ (n <= 1)%nat.
 Proof.
   intros c ra p fuel Hf.
@@ -415,10 +374,26 @@ Proof.
   - exists 0%nat; split; [reflexivity | lia].
 Qed.
 
+(* HYPOTHETICAL VARIANT, not the code: without that test (`guarded = false`, the loop as it was before ba077d7) an idle-only
+   timer would spin for ever.  Kept as the regression statement of finding F1: it is what a revert of the fix re-introduces. *)
+Lemma timer_tail_spin : forall c fuel,
+  t_interval c = None -> t_idle c <> None -> timer_tail false c false fuel TIdleOnly = None.
+Proof.
+  intros c fuel Hi Hd; induction fuel as [| f IH]; cbn; [reflexivity |]. rewrite IH; reflexivity.
+Qed.
+
+Lemma unguarded_loop_would_spin :
+  exists c p, forall fuel, timer_tail false c false fuel p = None.
+Proof.
+  exists {| t_interval := None; t_idle := Some 1000; t_sharp := false |}, (TAfterRun true).
+  intros [| fuel]; cbn; [reflexivity |]. rewrite timer_tail_spin; cbn; congruence.
+Qed.
+
 Example timer_tail_nonvacuous :
-  timer_tail false {| t_interval := Some 1000; t_idle := Some 2000; t_sharp := true |} false 4 (TAfterRun true) = Some 1%nat
-  /\ timer_tail false {| t_interval := None; t_idle := Some 2000; t_sharp := false |} true 4 (TAfterRun true) = Some 0%nat.
-Proof. split; reflexivity. Qed.
+  timer_tail true {| t_interval := Some 1000; t_idle := Some 2000; t_sharp := true |} false 4 (TAfterRun true) = Some 1%nat
+  /\ timer_tail true {| t_interval := None; t_idle := Some 2000; t_sharp := false |} false 4 (TAfterRun true) = Some 0%nat
+  /\ timer_tail true {| t_interval := None; t_idle := Some 2000; t_sharp := false |} false 4 TIdleOnly = Some 0%nat.
+Proof. repeat split; reflexivity. Qed.
 
 (* ------------------------------------------------------------------ the life-cycle LTS: invariant *)
 
@@ -718,9 +693,7 @@ Proof.
   - destruct (lookup id (o_running s)) as [i |]; [| discriminate]. destruct (Nat.eqb (i_ser i) ser); [| discriminate].
     apply finish_inv; exact H.
   - destruct (o_known s); [| discriminate]. intros E; injection E as <-. destruct H; split; prj; assumption.
-  - intros E; injection E as <-. destruct H; split; prj; assumption.
-  - destruct (o_kiter s); [| discriminate]. intros E; injection E as <-.
-    destruct (has_inst s id ser); [destruct H; split; prj; assumption | exact H].
+  - destruct (o_kiter s); [| discriminate]. intros E; injection E as <-. destruct H; split; prj; assumption.
   - destruct (_ && _); [| discriminate]. intros E; injection E as <-. apply upd_inst_inv; auto.
   - destruct (_ && _); [| discriminate]. intros E; injection E as <-. apply upd_inst_inv; auto.
   - destruct (_ || _); [| discriminate]. intros E; injection E as <-. apply upd_inst_inv; auto.
@@ -884,8 +857,7 @@ Proof.
   - destruct (lookup id0 (o_running s)) as [i |]; [| discriminate]. destruct (Nat.eqb (i_ser i) ser); [| discriminate].
     intros Hfin Hf. split; [eapply finish_forever_mono; eauto |]. intros H. apply (finish_keys _ _ _ Hfin) in H. tauto.
   - destruct (o_known s); [| discriminate]. intros E; injection E as <-. prj; auto.
-  - intros E; injection E as <-. prj; auto.
-  - destruct (o_kiter s); [| discriminate]. intros E; injection E as <-. destruct (has_inst s id0 ser); prj; auto.
+  - destruct (o_kiter s); [| discriminate]. intros E; injection E as <-. prj; auto.
   - destruct (_ && _); [| discriminate]. intros E; injection E as <-.
     match goal with |- context [upd_inst s ?a ?b ?c] => destruct (upd_inst_same s a b c) as [-> ->] end; auto.
   - destruct (_ && _); [| discriminate]. intros E; injection E as <-.
@@ -1037,7 +1009,6 @@ Proof.
     left. destruct (finish_misc _ _ _ Hf) as (E1 & E2 & E3 & E4 & _). unfold orphan. rewrite E1, E2, E3, E4.
     repeat split; auto. exists i. rewrite (finish_lookup_other _ _ _ _ Hf Hne). auto.
   - rewrite Hk; discriminate.
-  - intros E; injection E as <-. left. unfold orphan; prj. repeat split; auto. exists i; auto.
   - rewrite Hi; discriminate.
   - destruct (_ && _) eqn:G; [| discriminate]. intros E; injection E as <-. left.
     apply andb_prop in G as [G _].
@@ -1078,8 +1049,7 @@ Proof.
       - destruct (lookup id0 (o_running s)); [| discriminate]. destruct (Nat.eqb _ _); [| discriminate].
         destruct (finish_misc _ _ _ E) as (_ & E2 & _). congruence.
       - destruct (o_known s); [| discriminate]. injection E as <-; exact Hg.
-      - injection E as <-; exact Hg.
-      - destruct (o_kiter s); [| discriminate]. injection E as <-. destruct (has_inst s id0 ser0); exact Hg.
+      - destruct (o_kiter s); [| discriminate]. injection E as <-; exact Hg.
       - destruct (_ && _); [| discriminate]. injection E as <-. unfold upd_inst. destruct (lookup id0 (o_running s)); [| exact Hg]. destruct (Nat.eqb _ _); exact Hg.
       - destruct (_ && _); [| discriminate]. injection E as <-. unfold upd_inst. destruct (lookup id0 (o_running s)); [| exact Hg]. destruct (Nat.eqb _ _); exact Hg.
       - destruct (_ || _); [| discriminate]. injection E as <-. unfold upd_inst. destruct (lookup id0 (o_running s)); [| exact Hg]. destruct (Nat.eqb _ _); exact Hg. }
@@ -1091,8 +1061,7 @@ Proof.
         -- destruct (lookup id0 (o_running s1)); [| discriminate]. destruct (Nat.eqb _ _); [| discriminate].
            destruct (finish_misc _ _ _ E2) as (_ & G2 & _). congruence.
         -- destruct (o_known s1); [| discriminate]. injection E2 as <-; exact Hg.
-        -- injection E2 as <-; exact Hg.
-        -- destruct (o_kiter s1); [| discriminate]. injection E2 as <-. destruct (has_inst s1 id0 ser0); exact Hg.
+        -- destruct (o_kiter s1); [| discriminate]. injection E2 as <-; exact Hg.
         -- destruct (_ && _); [| discriminate]. injection E2 as <-. unfold upd_inst. destruct (lookup id0 (o_running s1)); [| exact Hg]. destruct (Nat.eqb _ _); exact Hg.
         -- destruct (_ && _); [| discriminate]. injection E2 as <-. unfold upd_inst. destruct (lookup id0 (o_running s1)); [| exact Hg]. destruct (Nat.eqb _ _); exact Hg.
         -- destruct (_ || _); [| discriminate]. injection E2 as <-. unfold upd_inst. destruct (lookup id0 (o_running s1)); [| exact Hg]. destruct (Nat.eqb _ _); exact Hg.
@@ -1102,8 +1071,7 @@ Proof.
         -- destruct (lookup id0 (o_running s1)); [| discriminate]. destruct (Nat.eqb _ _); [| discriminate].
            apply (finish_keys _ _ _ E2) in Hin. tauto.
         -- destruct (o_known s1); [| discriminate]. injection E2 as <-; exact Hin.
-        -- injection E2 as <-; exact Hin.
-        -- destruct (o_kiter s1); [| discriminate]. injection E2 as <-. destruct (has_inst s1 id0 ser0); exact Hin.
+        -- destruct (o_kiter s1); [| discriminate]. injection E2 as <-; exact Hin.
         -- destruct (_ && _); [| discriminate]. injection E2 as <-.
            match type of Hin with context [upd_inst s1 ?a ?b ?c] => destruct (upd_inst_same s1 a b c) as [_ Ek]; rewrite Ek in Hin end; exact Hin.
         -- destruct (_ && _); [| discriminate]. injection E2 as <-.
